@@ -349,6 +349,29 @@ def arr_out(f):
     return run_ok(lambda: from_np(f()))
 
 
+def rowbytes(fields):
+    n = 0
+    for f in fields:
+        c = isize(f["type"])
+        for s in f["sub"]:
+            c *= s
+        n += c
+    return n
+
+
+def dirty_heap(nbytes):
+    """Release a few buffers of exactly the size the result of the next call needs, filled with a non-zero
+    pattern (what any long-running program does by creating and dropping arrays).  numpy's small-block cache
+    and malloc then hand that recycled memory to the next allocation of this size, so that an output buffer
+    the implementation does not initialise itself ("zero-filled" is part of the statement) shows up instead
+    of depending on allocator luck."""
+    import numpy as np
+    if nbytes <= 0:
+        return
+    junk = [np.full(nbytes, 0xAB, dtype="u1") for _ in range(6)]
+    del junk
+
+
 # ----------------------------------------------------------------------------
 # entries
 # ----------------------------------------------------------------------------
@@ -372,13 +395,22 @@ class _Select(Entry):
     def nontrivial(self, c, out):
         return rich(c["arr"]) and proper_nonprefix(c["arr"], c["names"]["names"])
 
+    @staticmethod
+    def _call(c, f):
+        a, nm = to_np(c["arr"]), names_py(c["names"])
+        keep = set(c["names"]["names"])
+        for fs in (c["arr"]["fields"], [x for x in c["arr"]["fields"] if x["name"] in keep],
+                   [x for x in c["arr"]["fields"] if x["name"] not in keep]):
+            dirty_heap(nelem(c["arr"]["shape"]) * rowbytes(fs))
+        return f(a, nm)
+
 
 class Extract(_Select):
     name = "extract_fields"
 
     def impl(self, c):
         import esutil.numpy_util as nu
-        return arr_out(lambda: nu.extract_fields(to_np(c["arr"]), names_py(c["names"]), strict=c["strict"]))
+        return arr_out(lambda: self._call(c, lambda a, nm: nu.extract_fields(a, nm, strict=c["strict"])))
 
     def term(self, c, out):
         return "v_extract %s %s %s %s" % (carray(c["arr"]), cnames(c["names"]), cbool(c["strict"]), cres(out, carray))
@@ -393,7 +425,7 @@ class Remove(_Select):
 
     def impl(self, c):
         import esutil.numpy_util as nu
-        return arr_out(lambda: nu.remove_fields(to_np(c["arr"]), names_py(c["names"])))
+        return arr_out(lambda: self._call(c, lambda a, nm: nu.remove_fields(a, nm)))
 
     def term(self, c, out):
         return "v_remove %s %s %s" % (carray(c["arr"]), cnames(c["names"]), cres(out, carray))
@@ -407,7 +439,7 @@ class Reorder(_Select):
 
     def impl(self, c):
         import esutil.numpy_util as nu
-        return arr_out(lambda: nu.reorder_fields(to_np(c["arr"]), names_py(c["names"]), strict=c["strict"]))
+        return arr_out(lambda: self._call(c, lambda a, nm: nu.reorder_fields(a, nm, strict=c["strict"])))
 
     def term(self, c, out):
         return "v_reorder %s %s %s %s" % (carray(c["arr"]), cnames(c["names"]), cbool(c["strict"]), cres(out, carray))
@@ -501,7 +533,9 @@ class Add(Entry):
                     d = c["add"][i] if i < len(c["add"]) else {"type": "<i4", "sub": []}
                     vs.append(dval_py(v, d["type"], c["arr"]["shape"], d["sub"]))
                 defaults = vs[0] if dv["form"] == "single" else vs
-            return nu.add_fields(to_np(c["arr"]), spec, defaults=defaults)
+            a = to_np(c["arr"])
+            dirty_heap(nelem(c["arr"]["shape"]) * rowbytes(c["arr"]["fields"] + c["add"]))
+            return nu.add_fields(a, spec, defaults=defaults)
         return arr_out(f)
 
     def _args(self, c):
@@ -564,7 +598,12 @@ class Combine(Entry):
 
     def impl(self, c):
         import esutil.numpy_util as nu
-        return arr_out(lambda: nu.combine_fields([to_np(a) for a in c["arrs"]]))
+        def f():
+            arrs = [to_np(a) for a in c["arrs"]]
+            if arrs:
+                dirty_heap(nelem(c["arrs"][0]["shape"]) * rowbytes([x for a in c["arrs"] for x in a["fields"]]))
+            return nu.combine_fields(arrs)
+        return arr_out(f)
 
     def _args(self, c):
         return "[" + "; ".join(carray(a) for a in c["arrs"]) + "]"
